@@ -203,7 +203,12 @@ def main():
     cov = {"ops": {}, "evaluations": 0, "distinct_nontrivial": 0, "samples": []}
     factor = THOROUGH_FACTOR if tier == "thorough" else 1
     disagreements = []
+    import srcmap
+    changed_fns = srcmap.changed(REPO)       # functions whose AST differs from the recorded tree: examined harder
+    cov["changed_functions"] = changed_fns[:40]
     for opname, n in CONE[prop]:
+        if changed_fns and srcmap.boost_for(opname, changed_fns):
+            n *= 4
         try:
             r = corr.correspond(opname, n * factor, seed)
         except Exception as e:
@@ -268,6 +273,7 @@ def main():
             "samples": cov["samples"][:5] or [{"note": "no generated cases (finite domain enumerated completely)"}],
             "correspondence": cov["ops"], "oracle_evaluations": cov.get("oracle_evaluations", 0),
             "disagreements": len(disagreements), "known_findings_reported": findings_hit, "notes": notes,
+            "changed_functions_since_recorded_tree": cov.get("changed_functions", []),
         },
         "assumptions": TRUSTED_BASE,
         "wall_s": wall, "violations": len(violations),
